@@ -1,3 +1,10 @@
+"""MANIFEST.setup_cmd: from files on disk only, offline:
+  1. scratch build of /repo's working tree (shared with the checks),
+  2. regenerate lean/PysphVerif/Gen/*.lean with the translators of every claimed
+     check (the committed Gen files are only a cache of this),
+  3. lake build of the Props modules and model drivers of every claimed check.
+A property whose Lean files do not build does not fail the set-up: its own
+check reports that (broken obligation); set-up fails only if nothing builds."""
 import importlib.util
 import os
 import sys
@@ -5,7 +12,7 @@ ROOT = os.path.dirname(os.path.dirname(os.path.abspath(__file__)))
 sys.path.insert(0, os.path.join(ROOT, 'lib'))
 import vlib  # noqa: E402
 
-targets = []
+cfgs = []
 for i in range(1, 21):
     pid = 'C%02d' % i
     p = os.path.join(ROOT, 'checks', pid + '.py')
@@ -15,9 +22,25 @@ for i in range(1, 21):
     m = importlib.util.module_from_spec(spec)
     spec.loader.exec_module(m)
     if getattr(m, 'READY', False):
-        targets += list(m.PROPS) + [vlib.driver_target(pid)]
-if not targets:
+        cfgs.append((pid, m))
+if not cfgs:
     sys.exit(0)
+with vlib.Scratch() as sc:
+    work = sc.tmp('setup-%d' % os.getpid())
+    for pid, m in cfgs:
+        info, broken, notes = vlib.run_translators(m, sc, work)
+        for n in notes:
+            print('[setup] %s: %s' % (pid, n[:300]))
+targets = []
+for pid, m in cfgs:
+    targets += list(m.PROPS) + [vlib.driver_target(pid)]
 ok, out, failing = vlib.lake_build(targets)
-print(out[-3000:])
-sys.exit(0 if ok else 1)
+print(out[-2000:])
+if ok:
+    sys.exit(0)
+good = 0
+for pid, m in cfgs:
+    ok1, out1, _ = vlib.lake_build(list(m.PROPS) + [vlib.driver_target(pid)])
+    print('[setup] %s: %s' % (pid, 'built' if ok1 else 'DOES NOT BUILD (its check will report it)'))
+    good += ok1
+sys.exit(0 if good else 1)
